@@ -93,6 +93,7 @@ type Obligation struct {
 	Pos       token.Position
 	Path      string
 	ExpectSat bool // cover obligations: satisfiable expected
+	Opaque    []string
 	GoalText  string
 
 	// results
@@ -126,6 +127,8 @@ type FnCtx struct {
 	extraAxioms []string
 	curPos  token.Pos
 	oblSeq  map[string]int
+	assignOrd map[ast.Stmt]string
+	assertSeen map[string]bool
 }
 
 func (c *FnCtx) fresh(hint, sort string) Term {
@@ -167,7 +170,7 @@ func (c *FnCtx) oblige(st *State, kind, label string, goal string, props []strin
 		return
 	}
 	o := &Obligation{ID: c.oblID(kind, label), Kind: kind, Func: c.fi.Key, Props: props, Hyps: append([]string(nil), st.hyps...), Goal: goal,
-		Decls: &c.decls, Pos: c.eng.Fset.Position(c.curPos), Path: strings.Join(st.path, ";"), GoalText: goalText}
+		Decls: &c.decls, Pos: c.eng.Fset.Position(c.curPos), Path: strings.Join(st.path, ";"), GoalText: goalText, Opaque: c.spec.Opaque}
 	c.obls = append(c.obls, o)
 }
 
